@@ -98,5 +98,19 @@ def install():
                 n_isbool += 1
     if n_pd == 0 or n_isbool == 0:
         raise HarnessError(f"identity patches found nothing: pd={n_pd} is_bool={n_isbool}")
-    REPORT.update(get_backend_types=n_gbt, dispatch_entries=n_disp, pd_globals=n_pd, is_bool=n_isbool)
+    # (e) C boundary: numpy_engine.DataType.coerce_value is `self.type.type(value)`, a numpy scalar constructor.  On a
+    # symbolic numeric element it is the identity (every non-null int/float within the stated bounds converts between the
+    # numeric kinds); nulls reach it as real nan/None and take the real path.
+    from pandera.engines import numpy_engine
+    from symx import SymInt, SymReal
+
+    orig_cv = numpy_engine.DataType.coerce_value
+
+    def coerce_value(self, value):
+        if isinstance(value, (SymInt, SymReal)) and getattr(self.type, "kind", "") in "iuf":
+            return value
+        return orig_cv(self, value)
+
+    numpy_engine.DataType.coerce_value = coerce_value
+    REPORT.update(get_backend_types=n_gbt, dispatch_entries=n_disp, pd_globals=n_pd, is_bool=n_isbool, coerce_value=1)
     return REPORT
